@@ -86,6 +86,7 @@ Definition policy_C18_mem : policy := mk_policy
 Definition policy_C18_big : policy := mk_policy
   [ ("BigIndexWriter.nextRowID", GuardedBy "BigIndexWriter.mtx"); ("BigIndexWriter.schema", GuardedBy "BigIndexWriter.mtx");
     ("BigIndexWriter.tempTx", GuardedBy "BigIndexWriter.mtx"); ("BigIndexWriter.tempDB", GuardedBy "BigIndexWriter.mtx");
+    ("BigIndexWriter.db", Immutable);
     ("schema.Columns", GuardedBy "BigIndexWriter.mtx") ]
   [ ("BigIndexWriter.schema", "add", ECall "schema.add");
     ("BigIndexWriter.tempTx", "Bucket", ERead); ("BigIndexWriter.tempTx", "Put", EWrite);
